@@ -12,7 +12,7 @@
    the model to the code is decided on every run by evaluating Arb.Cases.shadow_run on the implementation's own
    batches. *)
 From Coq Require Import List ZArith String Bool.
-From NIC Require Import Base.SMap Arb.Types Arb.Model Arb.Spec Arb.InvProofs Arb.ListenerProofs Arb.ClassProofs Arb.Cases Arb.ChangeProofs Arb.ShadowProofs Arb.ShadowAttrs.
+From NIC Require Import Base.SMap Arb.Types Arb.Model Arb.Spec Arb.InvProofs Arb.ListenerProofs Arb.ClassProofs Arb.Cases Arb.ChangeProofs Arb.ShadowProofs Arb.ShadowAttrs Arb.ListenerCurrent.
 Import ListNotations.
 Open Scope Z_scope.
 
@@ -61,6 +61,25 @@ Print Assumptions C03_C09_rebuild_is_idempotent.
 Theorem C03_is_equal_reflexive : forall r, is_equal r r = true.
 Proof. exact is_equal_refl. Qed.
 Print Assumptions C03_is_equal_reflexive.
+
+(* "listener ports and addresses as they are in the current state": in every reachable state every resource of
+   GetResources() carries exactly the ports and addresses that the CURRENT GlobalConfiguration (the listeners that
+   passed validation, [o_gc (objs_after es)]) gives its listeners -- for the HTTP and the HTTPS listener of a
+   VirtualServer and for the listener of a TransportServer.  [listener_attrs_stale] is the judge the harness
+   evaluates on the implementation's own GetResources() after every event (Arb.Cases.listeners_current_run). *)
+Theorem C03_listener_attributes_current :
+  forall c es, Forall ev_role es ->
+  forall k r, lookup k (get_resources (run c es)) = Some r -> listener_attrs_stale (o_gc (objs_after es)) r = 0.
+Proof. exact listener_attributes_current. Qed.
+Print Assumptions C03_listener_attributes_current.
+
+(* non-vacuity: a VirtualServer bound to an HTTPS listener; the judge accepts the current port and rejects a stale one *)
+Definition exLG := Some [mkL "https-8443" 8443 "HTTP" "" "" true].
+Definition exLV := mkVS (mkMeta "ns" "v" "u1" 100 1 0) "h.example.com" [] (Some ("", "https-8443")).
+Example C03_listener_judge_discriminates :
+  (listener_attrs_stale exLG (RVS (mkVC exLV [] [] 0 8443 "" "" "" "")) = 0) /\
+  (listener_attrs_stale exLG (RVS (mkVC exLV [] [] 0 9000 "" "" "" "")) = 9).
+Proof. split; vm_compute; reflexivity. Qed.
 
 (* Non-vacuity / regression witnesses of the three repaired defects, on the model of the repaired
    code: a listener address edit, a passthrough->TCP flip and a re-created object all emit changes. *)
